@@ -18,34 +18,40 @@ def takeDigits : List Char → List Char × List Char
   | c :: r => if isDigit c then let (d, r') := takeDigits r; (c :: d, r') else ([], c :: r)
   | [] => ([], [])
 
+/-- `[-+]?` -/
+def stripSign (cs : List Char) : List Char × List Char :=
+  match cs with
+  | c :: r => if isSign c then ([c], r) else ([], cs)
+  | [] => ([], [])
+
+/-- `[0-9]*\.?[0-9]+` with Python's backtracking: digits, then `.digits` if at least one digit follows the dot,
+otherwise the digits alone (which must then be non-empty) -/
+def mantissa (r0 : List Char) : Option (List Char × List Char) :=
+  let (d1, r1) := takeDigits r0
+  match r1 with
+  | '.' :: r2 =>
+    let (d2, r3) := takeDigits r2
+    if d2 ≠ [] then some (d1 ++ '.' :: d2, r3)
+    else if d1 ≠ [] then some (d1, r1) else none
+  | _ => if d1 ≠ [] then some (d1, r1) else none
+
+/-- `(?:[eE][-+]?[0-9]+)?` after the text `pre` matched so far: (whole match, rest) -/
+def exponent (pre r : List Char) : List Char × List Char :=
+  match r with
+  | e :: q =>
+    if e == 'e' || e == 'E' then
+      let (es, q2) := stripSign q
+      let (ed, q3) := takeDigits q2
+      if ed ≠ [] then (pre ++ e :: es ++ ed, q3) else (pre, r)
+    else (pre, r)
+  | [] => (pre, r)
+
 /-- try to match FLOAT_RE at the head of the input; returns (matched text, rest) -/
 def matchFloat (cs : List Char) : Option (List Char × List Char) :=
-  let (sign, r0) := match cs with
-    | c :: r => if isSign c then ([c], r) else ([], cs)
-    | [] => ([], [])
-  let (d1, r1) := takeDigits r0
-  -- mantissa
-  let mant : Option (List Char × List Char) :=
-    match r1 with
-    | '.' :: r2 =>
-      let (d2, r3) := takeDigits r2
-      if d2 ≠ [] then some (d1 ++ '.' :: d2, r3)
-      else if d1 ≠ [] then some (d1, r1) else none
-    | _ => if d1 ≠ [] then some (d1, r1) else none
-  match mant with
+  let (sign, r0) := stripSign cs
+  match mantissa r0 with
   | none => none
-  | some (m, r) =>
-    -- optional exponent
-    match r with
-    | e :: r' =>
-      if e == 'e' || e == 'E' then
-        let (es, r'') := match r' with
-          | c :: q => if isSign c then ([c], q) else ([], r')
-          | [] => ([], [])
-        let (ed, r''') := takeDigits r''
-        if ed ≠ [] then some (sign ++ m ++ e :: es ++ ed, r''') else some (sign ++ m, r)
-      else some (sign ++ m, r)
-    | [] => some (sign ++ m, r)
+  | some (m, r) => some (exponent (sign ++ m) r)
 
 /-- `_tokenize_path`; `fuel` = input length + 1 -/
 def lex : Nat → List Char → List RawTok
